@@ -73,10 +73,12 @@ Proof. exact validate_ok_explain_keys_no_evaluation_error_nc. Qed.
 Print Assumptions C11_validate_ok_no_insufficient.
 
 (** "… and never runs dataset bodies beyond branch selection" — for EVERY expression, dictionary
-    and user code: a user-code call logged by explain happens inside the evaluation of a
-    sub-expression in chooser position, or is a case condition applied to the dispatch value. *)
+    and user code: a user-code call logged by explain of [e] under [o] happens inside the evaluation
+    of a sub-expression in chooser position under the dictionary that reaches it ([reaches]: [o]
+    overlaid by the WithOptions nodes above it / by the current Map row), or is a case condition
+    applied to the dispatch value, both evaluated under that dictionary. *)
 Theorem C11_explain_runs_only_choosers : forall u fuel e o evt,
-  is_call evt = true -> In evt (snd (explain_nc u fuel e o)) -> allowed u fuel e evt.
+  is_call evt = true -> In evt (snd (explain_nc u fuel e o)) -> allowed u fuel e o evt.
 Proof. exact (fun u fuel e o evt Hc H => runs_only_choosers_nc u fuel e o evt Hc (or_intror (or_intror H))). Qed.
 Print Assumptions C11_explain_runs_only_choosers.
 
@@ -107,19 +109,24 @@ Print Assumptions C11_explain_fails_only_insufficient_refuted_D6.
     listed is absent and validate passes; on {} (default branch) explain lists Q only. *)
 Example C11_ex_fragments : fragP pC sw_expr = true /\ fragP pM sw_expr = true /\ fragP pN sw_expr = true.
 Proof. repeat split; reflexivity. Qed.
+Print Assumptions C11_ex_fragments.
 Example C11_ex_side_conditions :
   clean_u u_total /\ no_fabricated_missing u_total /\ wf_dict o_A1 = true /\ resolves 40 o_A1 /\ resolves 40 o_Q1 /\ resolves 40 [].
 Proof.
   exact (conj u_total_clean (conj u_total_no_fabrication (conj eq_refl (conj resolves_o_A1 (conj resolves_o_Q1 resolves_nil))))).
 Qed.
+Print Assumptions C11_ex_side_conditions.
 Example C11_ex_missing :
   fst (explain_nc u_total 40 sw_expr o_A1) = Ok [kB; kA] /\
   fst (validate_nc u_total 40 sw_expr o_A1) = Err (CKey kB) true /\ lookup kB (JObj o_A1) = Absent.
 Proof. repeat split; reflexivity. Qed.
+Print Assumptions C11_ex_missing.
 Example C11_ex_sufficient :
   fst (explain_nc u_total 40 sw_expr o_Q1) = Ok [kQ] /\ fst (keys_nc u_total 40 sw_expr o_Q1) = Ok [kQ] /\
   fst (validate_nc u_total 40 sw_expr o_Q1) = Ok tt.
 Proof. repeat split; reflexivity. Qed.
+Print Assumptions C11_ex_sufficient.
 Example C11_ex_default_branch :
   fst (explain_nc u_total 40 sw_expr []) = Ok [kQ] /\ fst (validate_nc u_total 40 sw_expr []) = Err (CKey kQ) true.
 Proof. repeat split; reflexivity. Qed.
+Print Assumptions C11_ex_default_branch.
